@@ -29,6 +29,9 @@ type part struct {
 	// the partition is listed with an error of its own (what Conn.ReadPartitions gives for a partition reported with, say,
 	// LeaderNotAvailable): it is still a partition of the topic and has to be given to somebody
 	Err bool `json:"err,omitempty"`
+	// Replicas: racks of the brokers that hold replicas of the partition (listed as kafka.Partition.Replicas / Isr, the way
+	// Conn.ReadPartitions fills them).  The rack clause of the statement speaks of the leader's rack only.
+	Replicas []string `json:"replicas,omitempty"`
 }
 
 type groupCase struct {
@@ -64,6 +67,11 @@ func toLib(c groupCase, order []int) ([]kafka.GroupMember, []kafka.Partition) {
 		lp := kafka.Partition{Topic: p.Topic, ID: p.ID, Leader: kafka.Broker{ID: 1, Rack: p.Rack}}
 		if p.Err {
 			lp.Error = kafka.LeaderNotAvailable
+		}
+		for i, r := range p.Replicas {
+			b := kafka.Broker{Host: "replica", Port: 9092, ID: 2 + i, Rack: r}
+			lp.Replicas = append(lp.Replicas, b)
+			lp.Isr = append(lp.Isr, b)
 		}
 		ps = append(ps, lp)
 	}
@@ -310,6 +318,12 @@ func labelsOf(c groupCase) (labels []string, nontrivial bool) {
 			break
 		}
 	}
+	for _, p := range c.Parts {
+		if len(p.Replicas) > 0 && p.Rack == "" {
+			labels = append(labels, "rackless_leader_with_racked_replicas")
+			break
+		}
+	}
 	if c.Balancer == "rack-affinity" {
 		racks := map[string]bool{}
 		for _, m := range c.Members {
@@ -430,7 +444,12 @@ func TestExhaustiveSmall(t *testing.T) {
 					}
 					y := pr
 					for k := 0; k < P; k++ {
-						c.Parts = append(c.Parts, part{Topic: "t0", ID: k, Rack: racksP[y%len(racksP)]})
+						pp := part{Topic: "t0", ID: k, Rack: racksP[y%len(racksP)]}
+						if (mr+pr)%2 == 1 {
+							// every other case lists replicas too, on brokers of other racks than the leader's
+							pp.Replicas = []string{racksP[(y+k+1)%len(racksP)], racksP[(k+2)%len(racksP)]}
+						}
+						c.Parts = append(c.Parts, pp)
 						y /= len(racksP)
 					}
 					runGroup(t, c)
@@ -515,6 +534,11 @@ func genGroup(t *rapid.T) groupCase {
 		for i := 0; i < P; i++ {
 			id := order[i]
 			c.Parts = append(c.Parts, part{Topic: topicNames[k], ID: id, Rack: rapid.SampledFrom(append(racks, "zz")).Draw(t, "prack")})
+		}
+	}
+	if rapid.Bool().Draw(t, "withReplicas") {
+		for i := range c.Parts {
+			c.Parts[i].Replicas = rapid.SliceOfN(rapid.SampledFrom(racks), 1, 3).Draw(t, "replicaRacks")
 		}
 	}
 	if rapid.Bool().Draw(t, "extraTopic") {
